@@ -112,7 +112,7 @@ def _invokes_isolated(ctx, f, loop, var, depth=0):
         if isinstance(c.func, ast.Name) and c.func.id == var:
             sites.append(_isolated(c))
         elif any(isinstance(a, ast.Name) and a.id == var for a in c.args) and depth < 3:
-            r = ctx.r.resolve(f, c)
+            r = ctx.r.resolve(c, f, _count=False)
             if r.kind == 'package' and len(r.targets) == 1:
                 t = r.targets[0]
                 b = q.bind_args(ctx, c, f, t) or {}
